@@ -48,6 +48,9 @@ DUNDER = {
 }
 
 
+INSTALLER = '_defer_method'
+
+
 class Stop(Exception):
     pass
 
@@ -111,7 +114,7 @@ def run_body(stmts, env, calls):
                 run_body(s.body, env, calls)
             else:
                 run_body(s.orelse, env, calls)
-        elif isinstance(s, ast.Expr) and isinstance(s.value, ast.Call) and call_name(s.value) == '_defer_method':
+        elif isinstance(s, ast.Expr) and isinstance(s.value, ast.Call) and call_name(s.value) == INSTALLER:
             c = s.value
             kw = {}
             for k in c.keywords:
@@ -170,9 +173,15 @@ def check_tables(ctx):
             ctx.undecided(rule, where, nm, 'operator table not found / not a dict of lists of operator functions', 0, clause='a')
             return
         tabs[nm] = t
-    fi = repo.module_funcs.get(('deferred', '_defer_operations_of'))
+    fi = None
+    for (mod, nm), f in repo.module_funcs.items():
+        if mod == 'deferred' and all(t in unparse(f.node) for t in tabs):
+            fi = f
     if fi is None:
-        raise Undecided('anchor deferred._defer_operations_of not found')
+        raise Undecided('cannot find the function of deferred.py that installs the three operator tables')
+    global INSTALLER
+    INSTALLER = [c.func.id for n_ in ast.walk(fi.node) if isinstance(n_, ast.For) for c in ast.walk(n_) if isinstance(c, ast.Call) and isinstance(c.func, ast.Name) and any(k.arg == 'is_binary' for k in c.keywords)]
+    INSTALLER = INSTALLER[0] if INSTALLER else '_defer_method'
     ctx.unit('functions')
     loops = [n for n in fi.node.body if isinstance(n, ast.For)]
     # which loop handles which table: by the iterable name -> defined from which table
@@ -282,7 +291,7 @@ def check_tables(ctx):
     # if_true_then_else / chooses installed as nary with their own functions
     src = unparse(fi.node)
     for nm in ('if_true_then_else', 'chooses'):
-        if "_defer_method(cls, '%s', %s, is_binary=False, is_nary=True)" % (nm, nm) in src:
+        if "%s(cls, '%s', %s, is_binary=False, is_nary=True)" % (INSTALLER, nm, nm) in src:
             ctx.holds(rule, fi, "%s installed as n-ary selector bound to %s()" % (nm, nm), 'named method, own function', fi.node.lineno, clause='a')
         else:
             ctx.violation(rule, fi, nm, 'the %s selector is not installed as an n-ary method bound to its own function' % nm, fi.node.lineno, clause='a')
@@ -302,9 +311,9 @@ def namedtuple_fields(tree):
 def check_constructors(ctx, nts):
     repo = ctx.repo
     rule = 'R9-reflected-swap'
-    fi = repo.module_funcs.get(('deferred', '_defer_method'))
+    fi = repo.module_funcs.get(('deferred', INSTALLER))
     if fi is None:
-        raise Undecided('anchor deferred._defer_method not found')
+        raise Undecided('anchor deferred.%s not found' % INSTALLER)
     ctx.unit('functions')
     want_nt = {'BinaryExpr': ['left', 'right', 'op'], 'UnaryExpr': ['arg', 'op'], 'NaryExpr': ['left', 'arglist', 'argmapping', 'op']}
     for k, v in want_nt.items():
@@ -349,7 +358,10 @@ def check_constructors(ctx, nts):
     if len(seen) < 3:
         ctx.violation(rule, fi, '_defer_method branches %s' % sorted(seen), 'expected the plain, swapped and unary constructor branches', fi.node.lineno, clause='b')
     # nary: returns NaryExpr(A, B, C, op)
-    nary = repo.functions.get('bisturi/deferred.py::_defer_method.nary')
+    nary = None
+    for f_ in repo.functions.values():
+        if f_.module == 'deferred' and f_.qual.startswith(INSTALLER + '.') and f_.qual.count('.') == 1 and any(isinstance(r_, ast.Return) and isinstance(r_.value, ast.Call) and call_name(r_.value) == 'NaryExpr' for r_ in ast.walk(f_.node)):
+            nary = f_
     if nary is None:
         ctx.undecided(rule, fi, 'nary', 'nested nary constructor not found', fi.node.lineno)
     else:
